@@ -23,11 +23,11 @@ CHECKS = {
            "any minimum one",
            "Prototype sets produced by the real code on every graph x labeling of C01's families (supervised and "
            "semi-supervised, up to 7 samples) must be a member of the all-MST boundary family; covers every tie "
-           "pattern for n<=4 and uniqueness on all strict orders."),
+           "pattern for n<=4 and uniqueness on all strict orders; also tables with negative weights, int64 matrices whose weights differ beyond the 53rd bit (exact integer oracle) and the classifier left by learn()."),
  "C03": _e("bounded-exhaustive exploration of (fitted forest, query) pairs against the exhaustive argmin",
            "Every fitted forest on n<=4(5) samples x every query distance vector over the alphabet (train on each "
            "n-subset of each (n+1)-graph, predict the rest), value tables in near-equal / tiny / huge regimes, "
-           "direction-dependent metrics and tiny-scale lattices; the returned label must belong to the exhaustive "
+           "direction-dependent metrics, tiny-scale lattices, integer-typed training matrices, descending identifier arrays and one object toggled between matrix-fed and metric-fed use; the returned label must belong to the exhaustive "
            "minimisers' label set computed from the model's own costs."),
  "C04": _e("bounded-exhaustive exploration: all strict edge orders, all arrangements of a generic point set under 40 "
            "metrics, numerical-regime tables, all lattice data for KNN",
@@ -44,20 +44,20 @@ CHECKS = {
            "buffers re-used in place) against an independent closed-form transcription; length sweep; registry / "
            "option / accepted-set / save-load probes",
            "All ordered pairs over the R/N/P/S/T grids (lengths 1..3, thorough 4) for all 47 identifiers via the "
-           "registry, every vector length 1..160 and around 256/512/1024 incl. a cancellation-prone pair, resolution "
-           "through OPF and the four model constructors (also after a save/load into another identifier) and the "
-           "accepted-identifier set."),
+           "registry (as separate buffers and as rows of one matrix), every vector length 1..160 and around 256/512/1024 incl. a cancellation-prone pair, resolution "
+           "through OPF and the four model constructors (also after a save/load into another identifier, and with all "
+           "47 x 5 objects alive at once) and the accepted-identifier set."),
  "C07": _e("explicit-state search over call histories (pool bits x hidden-state digest x model digest) with prefix "
            "replay from a restored pristine module state; all metric call histories of length <= 3",
            "Every history of <=3 operations over {metric call on any ordered (also aliased) pair, caller overwrites "
            "its vector in place, float32 evaluation} for all 47 metrics; BFS to fixpoint (depth<=4) over model "
-           "operations incl. fits of unrelated models and matrices holding inf/nan for the four kinds; fresh-twice differential; each transition "
+           "operations incl. fits of unrelated models, a fit of the same object on two samples, matrices holding inf/nan and big-endian matrices for the four kinds; fresh-twice differential; each transition "
            "is a real call checked for caller-array bit-identity and history-independent value.", engine="explorer-B"),
  "C08": _e("bounded-exhaustive evaluation of the fixed axiom table on all ordered pairs and all ordered triples of "
            "the domain grids (pair matrix filled by real calls)",
            "Finite/symmetric/non-negative/zero-self on all ordered pairs and triangle on all ordered triples of the "
            "class grids (incl. the tolerance ladder around 1e-8 / 1e-5 and zero-containing vectors) for the rows of "
-           "the axiom table; finiteness and symmetry also on vectors of length 32..1024; every zero also as -0.0."),
+           "the axiom table; finiteness and symmetry also on vectors of length 32..1024; every zero also as -0.0; integer-typed vectors with exact zeros against their float64 copies."),
  "C09": _e("exhaustive enumeration of all batches (<=3) and all two-call histories over a query pool for every fitted "
            "model of the bounded families; model-state hash closes the history space",
            "For each of the four kinds and every lattice training sequence (KNN/unsupervised also with k forced), "
@@ -69,7 +69,7 @@ CHECKS = {
            "For every dataset in the bounds the distance file is produced by pre_compute_distance (.txt and .csv) and "
            "every ordered train/test index split is trained and predicted twice (file-fed vs feature-fed); node "
            "state, order, best_k, clusters and predictions must be bit-identical; get_distances() vs the metric on "
-           "all ordered pairs; metrics with non-zero self-distance and index sets that overlap or repeat a row."),
+           "all ordered pairs; metrics with non-zero self-distance and index sets that overlap or repeat a row; distance files whose first entry is negative."),
  "C11": _e("bounded-exhaustive metamorphic exploration: all n! training orders x five monotone metric transforms; "
            "monotone ladder of 1.8e5 distances per identifier",
            "Every permutation of every tie-free training set in the bounds (integer pools, a pool with cancelling "
@@ -114,14 +114,14 @@ CHECKS = {
            "bounded-exhaustive exploration of all small OPF binary datasets through the converters/loaders/parser",
            "split/split_with_index/merge for every permutation the RNG could return (n<=5), every percentage and "
            "label pattern; all small datasets (ids up to 2**31-1) written as OPF binaries and taken through "
-           "opf2txt/csv/json, the loaders, the parser and Subgraph(from_file), re-using the same paths.",
+           "opf2txt/csv/json, the loaders, the parser and Subgraph(from_file), re-using the same paths; file names with further dots.",
            engine="explorer-D"),
  "C19": _e("explicit enumeration of all enabled save/load/predict operation sequences (prefix replay) for every kind "
            "x metric x distance mode, field-by-field state comparison",
            "Every enabled sequence of {save, load into a fresh object built with another metric, predict original, "
            "predict loaded, save loaded} up to depth 3 (4) for 4 kinds x 47 metrics (x pre-computed mode), depth 5 "
            "(6) for the default metric, all saves to one path; the original's full state hashed around save, the "
-           "loaded state compared field by field, predictions compared; distance file rewritten between save and load; dotted file names; separate-interpreter load.",
+           "loaded state compared field by field, predictions compared; distance file rewritten between save and load; dotted file names; receivers constructed with their own distance file; Fortran-ordered 24-d permutation twins; separate-interpreter load.",
            engine="explorer-B"),
  "C20": _e("bounded-exhaustive enumeration of all (labels, predictions) vectors and small matrices against exact "
            "rational definitions; dtype x class-count sweep; in-place two-call histories",
